@@ -26,7 +26,7 @@ from gin import config_parser  # pylint: disable=g-import-not-at-top
 ID = 'C07'
 LEVEL = 'exploration'
 ISOLATE = True
-BUDGET = {'quick': (8, 110), 'thorough': (16, 2500)}
+BUDGET = {'quick': (16, 110), 'thorough': (16, 2500)}
 RULE = ('2-3 probes (function/class/method, any registration API, optional allow/deny list, some '
         'defaults non-literal) + 0-2 macros + one constant; 0-10 bindings over scopes with values '
         'in {literal, @ref, @ref() incl. scoped, %macro, %CONSTANT, non-literal object, list of '
